@@ -84,6 +84,7 @@ static bool scen_prepare(struct scen* s) {
       struct vh_rng r;
       rnode* t = ser_api_shadow(u, seed, &r);
       if (!t) return false;
+      if (rn_count(t) > 400) { rn_free(t); return false; } /* every schedule rebuilds the tree: very wide trees are left to the decoder-based scenarios */
       s->pre[0] = ser_build_variant(t, &r);
       rn_free(t);
       if (!s->pre[0]) return false;
@@ -304,9 +305,14 @@ static void scenario(const uint8_t* sd, size_t sn) {
   snprintf(nm, sizeof nm, "scenarios.%c", sd[0]);
   vh_count_dyn(nm, 1);
   if (vh_sampling()) { char what[200]; describe_scen(sd, sn, what, sizeof what); vh_sample_text("%s: %lld allocator request(s) fault-free -> %lld single-fault + %lld fail-stop schedules", what, (long long)N, (long long)N, (long long)N); }
-  if (N > 4000) N = 4000;
+  if (N > 60000) N = 60000;
+  /* exhaustive in k for ordinary scenarios; for very large ones (thousands of requests, each re-run rebuilding a
+   * thousands-of-nodes tree) the first 24, the last 24 and 48 evenly spaced requests */
+  int64_t stride = N > 160 ? N / 48 : 1;
+  if (stride > 1) VH_COUNT("scenarios.sampled_in_k", 1);
   for (int mode = 0; mode < 2; mode++)
     for (int64_t k = 0; k < N; k++) {
+      if (stride > 1 && k >= 24 && k < N - 24 && (k % stride) != 0) continue;
       d.n = sn;
       vb_be(&d, (uint64_t)k, 2); vb_u8(&d, (uint8_t)mode);
       if (!vh_case(d.p, d.n)) continue;
@@ -424,7 +430,7 @@ static void fault_run_all(void) {
   vh_count_dyn("scenarios", g_scen);
   vh_count_dyn("load_refusals_attributed_to_the_right_head", g_head_attributed);
   vh_count_dyn("max_requests_in_one_scenario", g_maxN);
-  vh_set_rule("each case is a (scenario, k, mode) triple: the scenario's operation is re-run from scratch with the allocator refusing request k only (mode 0) or request k and all later ones (mode 1), for every k below the fault-free request count N; the fault-free baseline is a case too; non-trivial = a fault schedule run (k < N); distinct by 64-bit hash of (scenario, k, mode)");
+  vh_set_rule("each case is a (scenario, k, mode) triple: the scenario's operation is re-run from scratch with the allocator refusing request k only (mode 0) or request k and all later ones (mode 1), for every k below the fault-free request count N (scenarios with N > 160 are sampled in k: first 24, last 24, 48 spread; counted in observed.scenarios.sampled_in_k); the fault-free baseline is a case too; non-trivial = a fault schedule run (k < N); distinct by 64-bit hash of (scenario, k, mode)");
   vh_set_exhaustive(false);
 }
 
